@@ -297,6 +297,62 @@ func C05(c *core.Ctx) {
 				"entries are listed only under "+a.Name,
 				tn+"."+lst[0]+" lists entries that hold no "+lst[1])
 		}
+		// ---- R5.4c replacing a next-hop list behaves like the insertions it stands for: in the
+		// function that turns the given []FibNextHopEntry into the table's own entries, a face
+		// that is listed again overwrites the cost of the entry already made for it (as a
+		// second InsertNextHopEnc does) — it is neither skipped nor entered twice
+		if tn == "FibStrategyTree" {
+			nBuild := 0
+			for _, fn := range p.FuncsIn(core.ModPath + "/fw/table") {
+				if fn.Signature.Recv() != nil || len(fn.Params) != 1 || strings.HasSuffix(p.File(fn.Pos()), "_test.go") {
+					continue
+				}
+				sl, ok := fn.Params[0].Type().Underlying().(*types.Slice)
+				if !ok {
+					continue
+				}
+				if n, isN := sl.Elem().(*types.Named); !isN || n.Obj().Name() != "FibNextHopEntry" {
+					continue
+				}
+				nBuild++
+				c.Funcs[core.FuncName(fn)] = true
+				sameFace := &core.Atom{Name: "existing.Nexthop==listed.Nexthop", Match: func(cond ssa.Value) (int, int) {
+					op, x, y, ok := core.Cmp(cond)
+					if ok && (op == token.EQL || op == token.NEQ) {
+						_, fx := core.FieldOf(x, "Nexthop")
+						_, fy := core.FieldOf(y, "Nexthop")
+						if fx && fy {
+							return core.Iff(op == token.EQL)
+						}
+						return 0, 0
+					}
+					// a hit in a map keyed by the face id
+					if ex, isEx := core.Strip(cond).(*ssa.Extract); isEx && ex.Index == 1 {
+						if lk, isLk := ex.Tuple.(*ssa.Lookup); isLk && lk.CommaOk {
+							if _, isF := core.FieldOf(lk.Index, "Nexthop"); isF {
+								return 1, -1
+							}
+						}
+					}
+					return 0, 0
+				}}
+				var upd []ssa.Instruction
+				core.InstrsDeep(fn, func(in ssa.Instruction) {
+					if fa, _, ok := storeToField(in, "FibNextHopEntry", "Cost"); ok {
+						if _, fresh := core.Strip(fa.X).(*ssa.Alloc); !fresh {
+							upd = append(upd, in)
+						}
+					}
+				})
+				ok2 := false
+				if len(upd) > 0 {
+					res := core.GateDeep(fn, upd, pos(sameFace))
+					ok2 = res.OK && res.PassEdges > 0
+				}
+				c.Decide(ok2, "R5.4", "replaced-list-keeps-last-cost:"+core.FuncName(fn), p.Pos(fn.Pos()), "a face listed again overwrites the cost of its entry", core.FuncName(fn)+" builds the table's next-hop list from the list given to SetNextHopsEnc without overwriting the cost of a face that is listed again (it is skipped, or entered twice): SetNextHopsEnc([f/10, f/30]) leaves cost 10 where InsertNextHopEnc(f,10); InsertNextHopEnc(f,30) leaves 30 — lookups and the FIB listing no longer show exactly the (face, cost) values the update history produced")
+			}
+			c.Floor("R5.4", "functions that build the table's next-hop list from a given list", nBuild, 1)
+		}
 		// ---- R5.4 update / removal act on the matching face id only
 		for _, m := range []string{"InsertNextHopEnc", "RemoveNextHopEnc"} {
 			fn := p.MethodOf(t, m)
